@@ -326,19 +326,23 @@ func buildOverlayRAC(root, pkgDir string) (map[string][]byte, error) {
 			}
 			ins = append(ins, insertion{off(fd.Body.Lbrace) + 1, sb.String()})
 			for _, a := range c.Asserts {
+				kind := "#assert:"
+				if a.Assume {
+					kind = "#assume:"
+				}
 				if a.Each {
 					if !strings.Contains(a.Text, "old(") && racExecutable(a.Text) {
 						for _, at := range stmtsContaining(fd.Body, src, off, a.After) {
-							ins = append(ins, insertion{off(at.Pos()), fmt.Sprintf("if __racPre && !__guard(func() bool { return %s }) { __rac_fail(%q) }; ", specToGo(a.Text, resultName), full+"#assert:"+a.Label)})
+							ins = append(ins, insertion{off(at.Pos()), fmt.Sprintf("if __racPre && !__guard(func() bool { return %s }) { __rac_fail(%q) }; ", specToGo(a.Text, resultName), full+kind+a.Label)})
 						}
 					}
 					continue
 				}
 				if at := stmtContaining(fd.Body, src, off, a.After); at != nil && !strings.Contains(a.Text, "old(") && racExecutable(a.Text) {
 					if a.Before {
-						ins = append(ins, insertion{off(at.Pos()), fmt.Sprintf("if __racPre && !__guard(func() bool { return %s }) { __rac_fail(%q) }; ", specToGo(a.Text, resultName), full+"#assert:"+a.Label)})
+						ins = append(ins, insertion{off(at.Pos()), fmt.Sprintf("if __racPre && !__guard(func() bool { return %s }) { __rac_fail(%q) }; ", specToGo(a.Text, resultName), full+kind+a.Label)})
 					} else {
-						ins = append(ins, insertion{off(at.End()), fmt.Sprintf("; if __racPre && !__guard(func() bool { return %s }) { __rac_fail(%q) };", specToGo(a.Text, resultName), full+"#assert:"+a.Label)})
+						ins = append(ins, insertion{off(at.End()), fmt.Sprintf("; if __racPre && !__guard(func() bool { return %s }) { __rac_fail(%q) };", specToGo(a.Text, resultName), full+kind+a.Label)})
 					}
 				}
 			}
